@@ -86,9 +86,9 @@ class Interp:
                 rel = self.result_of(n.value)
                 if in_rhs:
                     return ast.Tuple([const(r[0]) for r in rel.rows])
-                if len(rel.rows) == 0:
-                    return ast.NullConstant()
-                return const(rel.rows[0][0])
+                c = ast.NullConstant() if len(rel.rows) == 0 else const(rel.rows[0][0])
+                c.alias = n.alias          # the value keeps the column name of the parameter
+                return c
             if not isinstance(n, ASTNode):
                 return n
             if isinstance(n, ast.BinaryOperation) and n.op in ('in', 'not in'):
